@@ -165,6 +165,8 @@ impl<'a> SendBlocksProofProcess<'a> {
                 let block_hashes: Vec<packed::Byte32> =
                     headers.iter().map(|header| header.hash()).collect();
                 {
+                    #[cfg(feature = "verif")]
+                    crate::verif_hooks::at(crate::verif_hooks::Point::LockIntent("light_client.blocks_proof"));
                     let mut matched_blocks = self
                         .protocol
                         .peers()
